@@ -29,6 +29,10 @@ request and refuses values outside the domain, so every value of the corresponde
 the hypothesis of the theorems below. -/
 theorem wf_checked (sk : Bool) (v : J) : wfB sk v = true ↔ WF sk v := wfB_iff sk v
 
+/-- `DistinctKeys` (the hypothesis of `keys_sorted`; true of every Python dict) is a test as well:
+the driver evaluates `distinctB` on every request and refuses a value with a repeated key. -/
+theorem distinct_checked (v : J) : distinctB v = true ↔ DistinctKeys v := distinctB_iff v
+
 /-- a value of the JSON-mode domain (string keys only) is in the Python-mode domain -/
 theorem json_domain_in_python_domain (v : J) (h : WF true v) : WF false v := by
   have key : ∀ k, keyOk true k = true → keyOk false k = true := by
@@ -204,6 +208,8 @@ def samplePy : J :=
          (.str "B".toList, .dict [])]
 
 example : wfB false samplePy = true ∧ wfB true samplePy = false := by decide +kernel
+
+example : distinctB samplePy = true ∧ distinctB sample = true := by decide +kernel
 
 example : DistinctKeys samplePy := by
   simp only [samplePy, DistinctKeys, DistinctKeysD, DistinctKeysL]
